@@ -41,8 +41,8 @@ def from_callback_(
 
                     observer.on_next(results)
                 else:
-                    if len(results) <= 1:
-                        observer.on_next(*results)
+                    if len(results) == 1:
+                        observer.on_next(results[0])
                     else:
                         observer.on_next(results)
 
